@@ -234,7 +234,7 @@ def sub_corpus(tier, seed):
     import random
     rng = random.Random(seed + 202)
     defs = [d for d in corpus.shape_corpus() if d["id"].startswith("sub_")]
-    bodies = ["a|b", "[0-9]+", "x?y", "(?i)k", "a|", "é|e", "(?-u:z)", "[^a]", "ab|a", "(a|b)*c", "q+?"]
+    bodies = ["a|b", "[0-9]+", "x?y", "(?i)k", "a|", "é|e", "(?-u:z)", "[^a]", "ab|a", "(a|b)*c", "q+?", "#[0-9a-f]+", "[#;]", "a #b", "\\#|x", "a\nb", " ", "\\x23"]
     # mixed Unicode modes: a str subpattern keeps its Unicode meaning inside a byte-string pattern
     # (and a byte-string subpattern its byte meaning inside a str pattern); only possible with utf8 = false
     mixed = [("[^a]", b"x(?&s0)"), (".", b"(?&s0)y"), ("\\w+", b"<(?&s0)>"), ("[^a-z]+", b"(?&s0);"), ("é|.", b"=(?&s0)")]
@@ -243,6 +243,20 @@ def sub_corpus(tier, seed):
         defs.append(corpus.mk("submixn%d" % k, [corpus.rx(b"q(?&s1)", prio=9, greedy=True), corpus.rx(rb"(?s-u:.)", prio=1)], subs=[("s0", body), ("s1", b"(?&s0)z|w")], utf8=False, tags=["sub"]))
     for k, (body, user) in enumerate([(b"[\x80-\xff]", "(?&s0)+a"), (b"[^a]", "b(?&s0)"), (b".", "c(?&s0)c")]):
         defs.append(corpus.mk("submixb%d" % k, [corpus.rx(user, prio=9, greedy=True), corpus.rx("[a-z]", prio=1)], subs=[("s0", body)], utf8=False, tags=["sub"]))
+    # a reference is textual inclusion in a group: the flags in force where the reference stands apply inside the
+    # subpattern (only its Unicode mode is its own), and flags set inside it end with it
+    flagged = [("ab", "(?i)x(?&s0)y"), ("ab", "x(?i)(?&s0)y"), ("ab", "x(?i:(?&s0))ab"), ("ab", "(?i)x(?-i:(?&s0))y"),
+               ("a.b", "(?s)x(?&s0)"), ("a.b", "x(?&s0)|(?s:q(?&s0))"),
+               ("a b", "(?x)x (?&s0) y"), ("a b # c\n", "(?x)x(?&s0)y"), ("[eE] [+-]? [0-9]+", "(?x) [0-9]+ (?&s0)"), ("a b", "x(?&s0)y"),
+               ("a$", "(?m)x(?&s0)"), ("a$", "x(?&s0)"), ("a$", "(?Rm)x(?&s0)"),
+               ("a+", "(?U)x(?&s0)a"), ("(?i)k", "(?&s0)k"), ("(?x) a b ", "(?&s0) c"), ("(?s).", "(?&s0)."), ("(?i)", "(?&s0)a")]
+    for k, (body, user) in enumerate(flagged):
+        defs.append(corpus.mk("subflag%d" % k, [corpus.rx(user, prio=9, greedy=True), corpus.rx("[a-zA-Z0-9 .+-]", prio=1)], subs=[("s0", body)], tags=["sub"]))
+    for k, (body, user) in enumerate([("a b", "(?x)q (?&s1)"), ("ab", "(?i)q(?&s1)"), ("a.b", "q(?&s1)")]):
+        defs.append(corpus.mk("subflagn%d" % k, [corpus.rx(user, prio=9, greedy=True), corpus.rx("[a-zA-Z0-9 .]", prio=1)],
+                              subs=[("s0", body), ("s1", {"(?x)q (?&s1)": "(?&s0) z", "(?i)q(?&s1)": "(?&s0)z", "q(?&s1)": "(?s)(?&s0)z"}[user])], tags=["sub"]))
+    for k, (body, user) in enumerate([(b"a b", b"(?x)x (?&s0) y"), (b"ab", b"(?i)x(?&s0)")]):
+        defs.append(corpus.mk("subflagb%d" % k, [corpus.rx(user, prio=9, greedy=True), corpus.rx(b"[a-zA-Z ]", prio=1)], subs=[("s0", body)], utf8=False, tags=["sub"]))
     n = 25 if tier == "quick" else 300
     for k in range(n):
         subs = [("s0", rng.choice(bodies))]
@@ -848,6 +862,15 @@ def check_C16(tier, seed, rest):
     defs.append(corpus.mk("det_nested_sets", [corpus.rx("[ab]x?"), corpus.rx("ax?"), corpus.rx("a"), corpus.rx("[ab]")]))
     defs.append(corpus.mk("det_share_high", [corpus.tok("a"), corpus.tok("b"), corpus.rx("[ab]")]))
     defs.append(corpus.mk("det_many_nonutf8", [corpus.rx(b"\xff"), corpus.rx(b"\xfe+"), corpus.tok(b"\xfd"), corpus.rx("[a-z]")], [corpus.skip(b"\xfc")]))
+    # the same attribute text in different definitions, meaning different things (a subpattern of the same name with
+    # another body; another Unicode mode; another error type): nothing may carry over from one derive to the next
+    defs.append(corpus.mk("det_ctx_a", [corpus.rx("(?&w)x"), corpus.tok("q")], subs=[("w", "a+")]))
+    defs.append(corpus.mk("det_ctx_b", [corpus.rx("(?&w)x"), corpus.tok("q")], subs=[("w", "b|c")]))
+    defs.append(corpus.mk("det_ctx_c", [corpus.rx("(?&w)x"), corpus.tok("q")], subs=[("w", "[0-9]{2}")]))
+    defs.append(corpus.mk("det_ctx_d", [corpus.rx(b"(?&w)x"), corpus.tok(b"q")], subs=[("w", b"[\x80-\xff]")], utf8=False))
+    defs.append(corpus.mk("det_ctx_e", [corpus.rx("[a-z]+"), corpus.tok("q")], [corpus.skip("(?&w)")], subs=[("w", " +")]))
+    defs.append(corpus.mk("det_ctx_f", [corpus.rx("[a-z]+"), corpus.tok("q")], [corpus.skip("(?&w)")], subs=[("w", "_|-")]))
+    defs += [d for d in sub_corpus(tier, seed) if d["id"].startswith(("subr", "subflag"))][:30]
     seen = set()
     defs = [d for d in defs if not (d["id"] in seen or seen.add(d["id"]))]
     r = front.det_run(tier, seed, defs)
